@@ -59,11 +59,14 @@ TABLE = {
     IDX + "new": [["SourceMapIndex{file:arg1,sections:arg2,x_facebook_offsets:Option::None{},x_metro_module_paths:Option::None{}}"]],
     IDX + "new_ram_bundle_compatible": [["SourceMapIndex{file:arg1,sections:arg2,x_facebook_offsets:arg3,x_metro_module_paths:arg4}"]],
     "<types::TokenIter<'a> as core::iter::traits::iterator::Iterator>::next": [["Option::inspect(SourceMap::get_token(arg1.i,arg1.next_idx),closure:next::{closure#0})"],
-                                                                              ["FromResidual::from_residual(break(Try::branch(SourceMap::get_token(arg1.i,arg1.next_idx))))", "Option::Some{0:try(SourceMap::get_token(arg1.i,arg1.next_idx))}"]],
+                                                                              ["FromResidual::from_residual(break(Try::branch(SourceMap::get_token(arg1.i,arg1.next_idx))))", "Option::Some{0:try(SourceMap::get_token(arg1.i,arg1.next_idx))}"],
+                                                                              ["Option::None{}", "Option::Some{0:try(SourceMap::get_token(arg1.i,arg1.next_idx))}"]],  # let-else
     "<types::SourceIter<'a> as core::iter::traits::iterator::Iterator>::next": [["Option::inspect(SourceMap::get_source(arg1.i,arg1.next_idx),closure:next::{closure#0})"],
-                                                                              ["FromResidual::from_residual(break(Try::branch(SourceMap::get_source(arg1.i,arg1.next_idx))))", "Option::Some{0:try(SourceMap::get_source(arg1.i,arg1.next_idx))}"]],
+                                                                              ["FromResidual::from_residual(break(Try::branch(SourceMap::get_source(arg1.i,arg1.next_idx))))", "Option::Some{0:try(SourceMap::get_source(arg1.i,arg1.next_idx))}"],
+                                                                              ["Option::None{}", "Option::Some{0:try(SourceMap::get_source(arg1.i,arg1.next_idx))}"]],  # let-else
     "<types::NameIter<'a> as core::iter::traits::iterator::Iterator>::next": [["Option::inspect(SourceMap::get_name(arg1.i,arg1.next_idx),closure:next::{closure#0})"],
-                                                                              ["FromResidual::from_residual(break(Try::branch(SourceMap::get_name(arg1.i,arg1.next_idx))))", "Option::Some{0:try(SourceMap::get_name(arg1.i,arg1.next_idx))}"]],
+                                                                              ["FromResidual::from_residual(break(Try::branch(SourceMap::get_name(arg1.i,arg1.next_idx))))", "Option::Some{0:try(SourceMap::get_name(arg1.i,arg1.next_idx))}"],
+                                                                              ["Option::None{}", "Option::Some{0:try(SourceMap::get_name(arg1.i,arg1.next_idx))}"]],  # let-else
     "<types::SourceMapSectionIter<'a> as core::iter::traits::iterator::Iterator>::next": [["Option::inspect(SourceMapIndex::get_section(arg1.i,arg1.next_idx),closure:next::{closure#0})"],
                                                                               ["FromResidual::from_residual(break(Try::branch(SourceMapIndex::get_section(arg1.i,arg1.next_idx))))", "Option::Some{0:try(SourceMapIndex::get_section(arg1.i,arg1.next_idx))}"]],
     "<types::SourceContentsIter<'a> as core::iter::traits::iterator::Iterator>::next": [["Option::None{}", "Option::Some{0:SourceMap::get_source_contents(arg1.i,arg1.next_idx)}"]],
@@ -156,6 +159,8 @@ def accessors(ctx, rule, only=None, min_n=None):
         got = sorted(sh for _, sh in rs)
         n += 1
         ok = any(got == sorted(a) for a in alts) or any(q.fold_question(got) == sorted(a) for a in alts)
+        # (a value the closure form captures is the function's own argument in the `?` form: `^arg1` is `arg1`)
+        ok = ok or any([x.replace("^", "") for x in q.fold_question(got)] == sorted(y.replace("^", "") for y in a) for a in alts)
         ctx.check(ok, rule, path, "returns", "%s returns what its name says (%s)" % (path.split("::")[-1], " | ".join(alts[0])), ctx.site(b), detail=str(got)[:300])
         for bi, sh in rs:
             g = GUARDS.get((path, sh))
@@ -172,7 +177,8 @@ def accessors(ctx, rule, only=None, min_n=None):
             for bi, si, s, it2 in cl.locations():
                 if not it2 and s["k"] == "assign" and s["place"]["p"] and s["place"]["p"][-1].get("n") == "next_idx":
                     sh = q.shape(cl.expr_of_rvalue(s["rv"])).replace("^", "")
-                    guarded = cl is not nb or any(f.op == "variant_in" and f.l.startswith("Try::branch(") and f.r == (0,) for f in q.facts_at(cl, bi, {}))
+                    guarded = cl is not nb or any(f.op == "variant_in" and f.l.startswith("Try::branch(") and f.r == (0,) for f in q.facts_at(cl, bi, {})) or \
+                        any(f.op == "variant_in" and f.l.startswith("SourceMap::get_") and "arg1.next_idx" in f.l and f.r == (1,) for f in q.facts_at(cl, bi, {}))
                     adv.append((sh, guarded))
         ctx.check(adv == [("Add(1,arg1.next_idx)", True)], rule, p, "advance", "%s advances by one after each yielded element (and only then)" % it, detail=str(adv))
     sc = ctx.body("<types::SourceContentsIter<'a> as core::iter::traits::iterator::Iterator>::next") if (only is None or any("SourceContentsIter" in x for x in only)) else None
